@@ -372,7 +372,7 @@ pub fn rustc_run(asm: Assembled) -> RunOut {
             compile_errors: vec![],
             stdout: String::from_utf8_lossy(&o.stdout).to_string(),
             stderr: String::from_utf8_lossy(&o.stderr).to_string(),
-            status: format!("{:?}", o.status),
+            status: format!("{}", o.status),
             machinery_error: None,
         },
     }
